@@ -22,7 +22,8 @@ Print Assumptions C19_redefinition_hides.
 (* Second tie (DESIGN 3.5, docs/gotrans.md): Check / HasPerm / HasAnyPerm / AA as translated from
    auth/credential_store.go on this run are the hand model's functions (rep = the Go-side store of a
    model store; Some/None = non-nil / nil *CredentialsStore). *)
-From RQ Require Import Gen.Auth Proofs.C19_Gen.
+From RQ Require Import Gen.Auth.
+From RQ Require Import Proofs.C19_Gen.
 Theorem C19_source_derived_eq :
   (forall c u p, CredentialsStore_Check (rep c) u p = check c u p) /\
   (forall c u p, CredentialsStore_HasPerm (rep c) u p = has_perm c u p) /\
